@@ -419,7 +419,68 @@ def generate(rng, tier, corpus_only=False):
     for _ in range(n):
         p = rng.choice([2, 3, 3, 3, 5, 5])
         cases.append("redm %d %s" % (p, cancel_term(rng, p, 0)))
+    # coefficients that are multiples of the vanishing polynomial y^p - y (z^p - z): non-zero as polynomials, zero
+    # after reduction - as LEADING coefficient (degree must drop), as all non-constant coefficients (the result is
+    # a constant / a polynomial in a lower variable), and nested
+    cases.append("redm 5 P 0 3 N 3 N 1 P 1 6 N 0 N -1 N 0 N 0 N 0 N 1")      # (y^5 - y) x^2 + x + 3
+    cases.append("redm 5 P 0 2 N 2 P 1 6 N 0 N -1 N 0 N 0 N 0 N 1")          # (y^5 - y) x + 2
+    n = 250 if tier == "quick" else 2500
+    for _ in range(n):
+        p = rng.choice([2, 3, 3, 5, 5])
+        cases.append("redm %d %s" % (p, vanishing_term(rng, p)))
     return cases
+
+
+def vanishing_poly(rng, p, var):
+    """(v^p - v) * q(v) as a term in the variable `var` (q of degree <= 2, numeral coefficients, sometimes with a
+    coefficient that is itself a multiple of the next variable's vanishing polynomial added on top)"""
+    q = [rng.randint(lb(p), ub(p)) for _ in range(rng.randint(1, 3))]
+    if all(c % p == 0 for c in q):
+        q[0] = 1
+    cs = [0] * (len(q) + p)
+    for i, c in enumerate(q):
+        cs[i + 1] -= c
+        cs[i + p] += c
+    parts = ["N %d" % canon(c, p) for c in cs]
+    if var < 2 and rng.random() < 0.3:
+        parts[rng.randrange(len(parts))] = vanishing_poly(rng, p, var + 1)
+    return "P %d %d %s" % (var, len(parts), " ".join(parts))
+
+
+def small_term(rng, p, var):
+    """a term in var..2 with all exponents < p (already reduced)"""
+    if var > 2 or rng.random() < 0.5:
+        return "N %d" % rng.randint(lb(p), ub(p))
+    n = rng.randint(1, p)
+    return "P %d %d %s" % (var, n, " ".join(small_term(rng, p, var + 1) for _ in range(n)))
+
+
+def vanishing_term(rng, p):
+    """sum c_i x^i with degree in x below p (only the recursive branch of coefficient_reduce_Zp runs) whose leading
+    coefficients - or all coefficients of positive degree - vanish after reduction"""
+    n = rng.randint(2, p) if p > 2 else 2
+    k = rng.random()
+    parts = [small_term(rng, p, 1) for _ in range(n)]
+    if k < 0.45:
+        for i in range(rng.randint(1, min(2, n - 1))):
+            parts[n - 1 - i] = vanishing_poly(rng, p, 1)           # leading coefficient(s) vanish
+    elif k < 0.7:
+        for i in range(1, n):
+            parts[i] = vanishing_poly(rng, p, 1)                   # everything but the constant vanishes
+        if rng.random() < 0.5:
+            parts[0] = "N %d" % rng.randint(lb(p), ub(p))
+    elif k < 0.85:
+        parts[rng.randrange(n)] = vanishing_poly(rng, p, 1)        # an inner / the constant coefficient vanishes
+        parts[n - 1] = small_term(rng, p, 1)
+    else:
+        # the coefficient of y^j inside the leading coefficient vanishes in z
+        inner = [small_term(rng, p, 2) for _ in range(rng.randint(2, p) if p > 2 else 2)]
+        inner[-1] = vanishing_poly(rng, p, 2)
+        parts[n - 1] = "P 1 %d %s" % (len(inner), " ".join(inner))
+    if rng.random() < 0.3:
+        # the same in a polynomial whose x-degree is >= p as well (both branches)
+        parts += ["N 0"] * rng.randint(0, p) + [vanishing_poly(rng, p, 1)]
+    return "P 0 %d %s" % (len(parts), " ".join(parts))
 
 
 def cancel_term(rng, p, var):
